@@ -51,6 +51,17 @@ var extras = map[string]ruleFn{
 	},
 	// "start-up fails with an error instead of succeeding with mixed versions": the creator's error reaches the holder
 	"C03": func(c *core.Ctx, r *core.Report) {
+		// "start-up fails instead of succeeding with mixed versions": the refusal ends the refresh - every eager component
+		// is created once, and an error of one is the refresh's error
+		refreshRules(c, r, func(row string) string {
+			if row == "eager-only" || row == "error" || row == "creates-only" {
+				return "C03.R14"
+			}
+			return ""
+		})
+		// every kind of injection point that receives components records its holder (the record is what the
+		// stale-version check reads): the reflect writers of the module are the frozen ones
+		writerRules(c, r, "C03.R15")
 		// "every lookup by name refers to the one published version": the public lookups hand out what the registry publishes, and a name has one definition
 		lookupRules(c, r, "C03.R9")
 		definitionRegistryTables(c, r, "", "C03.R10")
@@ -81,6 +92,8 @@ var extras = map[string]ruleFn{
 	// "every dependency ... has already completed its own initialization": candidates found by the processors reach
 	// the populator; post-processors are populated by the processors ordered before them
 	"C05": func(c *core.Ctx, r *core.Report) {
+		// "exactly once": a second instance under a taken name is refused, so no processor is resolved to another's instance
+		registerRules(c, r, "C05.R14")
 		// created (and so initialised) are exactly the chosen candidates: a single-valued point keeps one
 		narrowRules(c, r, "C05.R10", "single-member", "slice-exact")
 		// which processors are active when a user post-processor is created depends on its position: the embeddable
@@ -101,6 +114,8 @@ var extras = map[string]ruleFn{
 	},
 	// "leaves the field untouched when it is optional": nothing but Inject / SetValue / the logger processor writes fields
 	"C07": func(c *core.Ctx, r *core.Report) {
+		// "fails when required, untouched when optional": whether a point is required is asked of its arguments when the decision is taken
+		isRequiredRules(c, r, "C07.R20")
 		// the stages that look the named component up and narrow take part for every holder
 		stageOptInRules(c, r, "C07.R19", "dep", "further")
 		// the tag value (the requested name) is the text up to the first top-level comma
@@ -138,6 +153,9 @@ var extras = map[string]ruleFn{
 	},
 	// "required=false points that cannot be satisfied leave their field at its zero value"
 	"C09": func(c *core.Ctx, r *core.Report) {
+		isRequiredRules(c, r, "C09.E16")
+		// a by-name point finds the component registered under exactly that name, or nothing
+		definitionRegistryTables(c, r, "", "C09.E17")
 		// "does not panic": building the narrowing error never panics; every eager component is created, so its failures surface
 		narrowRules(c, r, "C09.E6", "no-panic")
 		refreshRules(c, r, func(row string) string {
@@ -185,6 +203,13 @@ var extras = map[string]ruleFn{
 	// "only components whose declared qualifier is in the requested set": qualifier texts are compared exactly
 	// "a unique component without a custom name wins": which components count as custom-named
 	"C08": func(c *core.Ctx, r *core.Report) {
+		// the narrowing rules hold for the fields of every holder, a user's post-processor included: the chain that
+		// creates it is the sorted one, active as far as it has been built
+		if bs, why := findBootstrap(c); bs != nil {
+			bsTable(c, r, bs, "C08.R11", map[string]bool{"chain-active": true, "chain-order": true, "eager-create": true})
+		} else {
+			r.Undecided("C08.R11", "bootstrap", "", why)
+		}
 		// the stages that collect and narrow candidates take part for every holder
 		stageOptInRules(c, r, "C08.R10", "dep", "further")
 		// narrowing runs for every holder on every creation: the property stage calls every processor each time
@@ -197,6 +222,17 @@ var extras = map[string]ruleFn{
 	},
 	// the ordering helper is a function of the multiset of participants (not of their enumeration order)
 	"C10": func(c *core.Ctx, r *core.Report) {
+		// the same components are wired whatever the enumeration order: a version conflict is an error in every order, and
+		// every candidate of a point is created through the accessor, lazy or not
+		exposerRowRules(c, r, "C10.R13", "stale-detected")
+		if l := findLifecycle(c, r, "C10.R14"); l != nil {
+			populateRules(c, r, l, func(row string) string {
+				if row == "from-accessor" {
+					return "C10.R14"
+				}
+				return ""
+			})
+		}
 		sorterRules(c, r, "C10.R6")
 		registerRules(c, r, "C10.R7")
 		// "under every goroutine schedule of the parallel scanning phase": scanners asking for one name share one definition
@@ -219,6 +255,12 @@ var extras = map[string]ruleFn{
 	},
 	// "receives ... the tag's value and arguments"; every processor sees every property
 	"C11": func(c *core.Ctx, r *core.Report) {
+		// a user-supplied tag scanner has its settings when the scan starts: the factory post-processors, where it gets them, have all run
+		if bs, why := findBootstrap(c); bs != nil {
+			bsTable(c, r, bs, "C11.R13", map[string]bool{"phases": true})
+		} else {
+			r.Undecided("C11.R13", "bootstrap", "", why)
+		}
 		loggerRules(c, r, "C11.R10")
 		chainActiveRules(c, r, "C11.R8")
 		tagRules(c, r, "C11.R7", "value", "arguments")
@@ -237,6 +279,8 @@ var extras = map[string]ruleFn{
 	},
 	// "every registered runner is invoked": the runner collection is complete
 	"C13": func(c *core.Ctx, r *core.Report) {
+		// "every registered runner exactly once": a second instance under a taken name is refused (not replaced, not renamed)
+		registerRules(c, r, "C13.R12")
 		// "only after every eagerly created component has finished initialization": an initialization that did not complete is an error
 		initErrorRules(c, r, "C13.R9", "sequence") // (sequence: finished means every initialization callback the component has was run)
 		markerTypeRules(c, r, "C13.R7")
@@ -270,6 +314,8 @@ var extras = map[string]ruleFn{
 	// "the others in the order they were added": the ordering helper keeps unordered participants in place;
 	// what was merged or set last is what lookups see
 	"C15": func(c *core.Ctx, r *core.Report) {
+		// the merged configuration components are bound from is the one the application was given
+		runWiringRules(c, r, "C15.R12")
 		optionRules(c, r, "C15.R3")
 		// options registered for the whole process (app.Settings) are all kept
 		globalSettingsRules(c, r, "C15.R11")
@@ -278,6 +324,8 @@ var extras = map[string]ruleFn{
 	},
 	// "replaced by the configured value when one is present": lookups see the configuration as it is now
 	"C16": func(c *core.Ctx, r *core.Report) {
+		// placeholders are resolved against the configuration the application was given: the one the App holds after its options
+		runWiringRules(c, r, "C16.R16")
 		// the placeholder stage takes part for every component
 		stageOptInRules(c, r, "C16.R15", "quote")
 		textStageRules(c, r, "C16.R4", "quote", "expr")
@@ -363,6 +411,9 @@ var extras = map[string]ruleFn{
 		argumentNameRules(c, r, "C19.R10")
 	},
 	"C01": func(c *core.Ctx, r *core.Report) {
+		// "no holder ends up with a different version": a component never holds itself (its own early reference is the one
+		// dependent the stale-version check passes over)
+		narrowRules(c, r, "C01.R14", "never-self")
 		// "no holder ever ends up with a second copy": nothing evicts a published singleton (a re-creation would hand later holders another instance)
 		alphabetRules(c, r, "C01.R11")
 		lookupRules(c, r, "C01.R8")
@@ -376,6 +427,12 @@ var extras = map[string]ruleFn{
 		exposerRowRules(c, r, "C01.R13", "lookup-after-init", "stale-detected")
 	},
 	"C06": func(c *core.Ctx, r *core.Report) {
+		// a component created before the dependency stages exist is never wired: nothing is created while the factory post-processors run, because there are no definitions yet
+		if bs, why := findBootstrap(c); bs != nil {
+			bsTable(c, r, bs, "C06.R16", map[string]bool{"phases": true})
+		} else {
+			r.Undecided("C06.R16", "bootstrap", "", why)
+		}
 		// the stages that collect and narrow candidates take part for every holder
 		stageOptInRules(c, r, "C06.R15", "dep", "further")
 		// completeness: every processor that collects candidates runs for every holder, and every component has a definition
@@ -413,6 +470,12 @@ var extras = map[string]ruleFn{
 		refiled(c, r, "C12.R8", func(sub *core.Report) { c03Flags(c, sub) })
 	},
 	"C17": func(c *core.Ctx, r *core.Report) {
+		// the configuration values reach fields from the configuration the application was given
+		runWiringRules(c, r, "C17.R17")
+		// the placeholder and prop paths give what the prefix path gives: presence (an empty list or map is a value), the
+		// default as written, and the text stage working on the tag value as the scan split it
+		presenceRules(c, r, "C17.R16")
+		textStageRules(c, r, "C17.R16", "quote")
 		// the configuration stages take part for every component
 		stageOptInRules(c, r, "C17.R15", "quote", "value", "prefix")
 		// "string values arrive unchanged": the file and raw loaders hand back exactly the bytes they were given
@@ -434,6 +497,9 @@ var extras = map[string]ruleFn{
 	},
 	// "never returns the half-built instance as if it had been created": an initialization that failed is a failed creation, every time
 	"C04": func(c *core.Ctx, r *core.Report) {
+		// "once creation completes, the published instance is the only thing ever returned for that name": the public
+		// lookups hand out what the accessor hands out, and nothing else when it fails
+		lookupRules(c, r, "C04.R7")
 		initErrorRules(c, r, "C04.R4")
 		// "the published instance is the only thing ever returned for that name": publication refuses a version other
 		// than the early reference already handed out by looking at who received it - every holder is on that record
@@ -450,6 +516,9 @@ var extras = map[string]ruleFn{
 		}
 	},
 	"C20": func(c *core.Ctx, r *core.Report) {
+		// a definition is complete before another goroutine can obtain it: it is built inside the store-if-absent callback
+		newMetaRules(c, r, "C20.R13")
+		definitionNameRules(c, r, "C20.R13")
 		// components of one type scanned concurrently share nothing: every component gets properties of its own
 		tagScanPerComponentRules(c, r, "C20.R10")
 		copyLockRules(c, r, "C20.R9")
